@@ -238,6 +238,9 @@ public:
     double scanpos;
     std::vector<Edge*> boundary;
     void updateActualBoundary();
+    // Orders clusters by the lowest index of their child nodes, rather
+    // than by pointer value.  Used as a tie-breaker by CmpNodePos.
+    static bool orderLessThan(const Cluster *lhs, const Cluster *rhs);
 };
 class Node : public ScanObject {
 public:
@@ -302,7 +305,10 @@ struct CmpNodePos {
     bool operator() (const Node* u, const Node* v) const {
         double upos = u->scanpos;
         double vpos = v->scanpos;
-        bool tiebreaker = u < v;
+        // Break ties using node IDs (and cluster contents), rather than
+        // pointer values, so the scan order, and hence the constraints
+        // generated, don't depend on where the nodes were allocated.
+        bool tiebreaker = (u->id != v->id) ? (u->id < v->id) : (u < v);
         if (u->cluster != v->cluster) {
             if(u->cluster!=nullptr) {
                 upos = u->cluster->scanpos;
@@ -310,7 +316,7 @@ struct CmpNodePos {
             if(v->cluster!=nullptr) {
                 vpos = v->cluster->scanpos;
             }
-            tiebreaker = u->cluster < v->cluster;
+            tiebreaker = Cluster::orderLessThan(u->cluster, v->cluster);
         }
         if (upos < vpos) {
             return true;
